@@ -21,7 +21,7 @@ use ordered_float::OrderedFloat;
 use write_fonts::{OtRound, types::GlyphId16};
 
 use crate::{
-    error::{BadGlyph, Error},
+    error::{BadGlyph, BadGlyphKind, Error},
     ir::{Component, Glyph, GlyphBuilder, GlyphInstance, GlyphOrder, StaticMetadata},
     orchestration::{Context, Flags, IrWork, WorkId},
     propagate_anchors::propagate_all_anchors,
@@ -253,6 +253,53 @@ fn prune_missing_components(context: &Context) {
         }
         context.glyphs.set(new_glyph);
     }
+}
+
+/// Fail if any glyph uses itself as a component, directly or through other glyphs.
+///
+/// Everything downstream (inlining of non-export glyphs, flattening, decomposition, composite
+/// bounding boxes, maxp limits) walks the component graph assuming it is acyclic, and would
+/// otherwise recurse or loop forever.
+fn check_component_cycles(context: &Context) -> Result<(), BadGlyph> {
+    let glyphs = context.glyphs.all();
+    let graph: HashMap<&GlyphName, BTreeSet<&GlyphName>> = glyphs
+        .iter()
+        .map(|(_, glyph)| (&glyph.name, glyph.component_names().collect()))
+        .collect();
+    let mut names: Vec<_> = graph.keys().copied().collect();
+    names.sort();
+
+    let mut done = HashSet::new();
+    for start in names {
+        if done.contains(start) {
+            continue;
+        }
+        // depth first; `path` is the chain of glyphs we are currently inside of
+        let mut path = vec![start];
+        let mut pending = vec![graph.get(start).into_iter().flatten().copied().collect::<Vec<_>>()];
+        while let Some(children) = pending.last_mut() {
+            let Some(child) = children.pop() else {
+                pending.pop();
+                if let Some(finished) = path.pop() {
+                    done.insert(finished);
+                }
+                continue;
+            };
+            if let Some(pos) = path.iter().position(|name| *name == child) {
+                let cycle = path[pos..].iter().map(|name| (*name).clone()).collect();
+                return Err(BadGlyph::new(
+                    child.clone(),
+                    BadGlyphKind::ComponentCycle(cycle),
+                ));
+            }
+            if done.contains(child) {
+                continue;
+            }
+            path.push(child);
+            pending.push(graph.get(child).into_iter().flatten().copied().collect());
+        }
+    }
+    Ok(())
 }
 
 /// Equivalent to 'SkipExportGlyphsFilter' in pythonland:
@@ -828,6 +875,7 @@ impl Work<Context, WorkId, Error> for GlyphOrderWork {
         // missing component can't cause its glyph (or its siblings) to be
         // decomposed. See https://github.com/googlefonts/fontc/issues/1858
         prune_missing_components(context);
+        check_component_cycles(context)?;
 
         // Propagate anchors from components to composites (if enabled)
         // This must happen BEFORE flattening non-export components, because after
